@@ -219,12 +219,12 @@ Qed.
 Lemma get_write_cat_column : forall level sh col k,
   NoDup (map fst level) -> in_dims (k + 1) col = true ->
   get (write_cat_column sh col level) (k + 1) col =
-    match lookup k level with Some lab => xl_cell lab | None => get sh (k + 1) col end.
+    match lookup k level with Some lab => xl_cell (date_only lab) | None => get sh (k + 1) col end.
 Proof.
   induction level as [|[i lab] level IH]; intros sh col k Hnd Hd; [reflexivity|].
   inversion Hnd as [|? ? Hni Hnd']; subst.
   change (write_cat_column sh col ((i, lab) :: level))
-    with (write_cat_column (xl_write sh (i + 1) col lab true) col level).
+    with (write_cat_column (xl_write sh (i + 1) col (date_only lab) true) col level).
   cbn [lookup]. destruct (N.eqb_spec i k) as [->|Hne].
   - rewrite get_write_cat_column_miss.
     + apply get_xl_write_fmt; auto.
@@ -249,7 +249,7 @@ Lemma get_write_levels_hit : forall lvls sh depth i j l k,
   nth_error lvls j = Some l ->
   in_dims (k + 1) (depth - (i + N.of_nat j) - 1) = true ->
   get (write_levels sh depth i lvls) (k + 1) (depth - (i + N.of_nat j) - 1) =
-    match lookup k l with Some lab => xl_cell lab
+    match lookup k l with Some lab => xl_cell (date_only lab)
                      | None => get sh (k + 1) (depth - (i + N.of_nat j) - 1) end.
 Proof.
   induction lvls as [|l0 lvls IH]; intros sh depth i j l k Hb Hnd Hn Hd; [destruct j; discriminate|].
@@ -654,7 +654,7 @@ Section CatSheet.
     1 <= depth -> nth_error (levels (cd_cats d)) j = Some l ->
     in_dims (k + 1) (depth - N.of_nat j - 1) = true ->
     get sh (k + 1) (depth - N.of_nat j - 1) =
-      match lookup k l with Some lab => xl_cell lab | None => Empty end.
+      match lookup k l with Some lab => xl_cell (date_only lab) | None => Empty end.
   Proof.
     intros Hd1 Hn Hd. rewrite (cat_sheet_eq d depth sh Hdepth Hsh).
     rewrite get_write_series_miss by lia.
@@ -690,8 +690,8 @@ Definition label_ok_num (b : bool) (l : pyval) : bool :=
   | PNum _ _ => true
   | PStr s => str_safe s
   | PDate _ => negb b
-  | PDateTime ord us => negb b && (us =? 0) && negb (ord =? ord_1900_01_01)%Z
-  | PNone => false
+  | PDateTime _ _ => negb b
+  | PNone => true
   end.
 
 Lemma label_of_idem l : label_of (label_of l) = label_of l.
@@ -701,9 +701,9 @@ Lemma label_str_val_label_of l : label_str_val (label_of l) = label_str_val l.
 Proof. unfold label_str_val. rewrite label_of_idem. reflexivity. Qed.
 
 Lemma label_ok_str_agrees l :
-  label_ok_str l = true -> cell_agrees (Some (label_str_val l)) (xl_cell (label_of l)) = true.
+  label_ok_str l = true -> cell_agrees (Some (label_str_val l)) (xl_cell (date_only (label_of l))) = true.
 Proof.
-  destruct l as [|s|n dn|o|o u]; cbn [label_ok_str label_of label_str_val xl_cell]; intros H; try discriminate.
+  destruct l as [|s|n dn|o|o u]; cbn [label_ok_str label_of label_str_val xl_cell date_only]; intros H; try discriminate.
   - reflexivity.
   - apply str_safe_agrees; auto.
   - cbn [cell_agrees]. apply Z.eqb_refl.
@@ -719,28 +719,16 @@ Proof.
   destruct (Z.ltb_spec 59 days); destruct (Z.ltb_spec (59 * D) (days * D + 0)); nia.
 Qed.
 
-Lemma datetime_serial_agrees ord :
-  ord <> ord_1900_01_01 ->
-  (excel_date_number false ord * Z.pos us_per_day =? xl_datetime_num true ord 0 * 1)%Z = true.
-Proof.
-  intros Hne. apply Z.eqb_eq. unfold excel_date_number, xl_datetime_num. cbn [negb andb].
-  change (Z.of_N 0) with 0%Z.
-  replace (ord =? ord_1900_01_01)%Z with false by (symmetry; apply Z.eqb_neq; auto).
-  set (D := Z.pos us_per_day). assert (HD : (0 < D)%Z) by (unfold D; lia).
-  set (days := (ord - ord_1899_12_31)%Z).
-  destruct (Z.ltb_spec 59 days); destruct (Z.ltb_spec (59 * D) (days * D + 0)); nia.
-Qed.
-
 Lemma label_ok_num_agrees b l :
-  label_ok_num b l = true -> cell_agrees (Some (numeric_str_val b l)) (xl_cell (label_of l)) = true.
+  label_ok_num b l = true ->
+  cell_agrees (Some (numeric_str_val b l)) (xl_cell (date_only (label_of l))) = true.
 Proof.
-  destruct l as [|s|n dn|o|o u]; cbn [label_ok_num label_of numeric_str_val xl_cell]; intros H; try discriminate.
+  destruct l as [|s|n dn|o|o u]; cbn [label_ok_num label_of numeric_str_val xl_cell date_only]; intros H; try discriminate.
+  - reflexivity.
   - apply str_safe_agrees; auto.
   - cbn [cell_agrees]. apply Z.eqb_refl.
   - apply negb_true_iff in H. subst. cbn [cell_agrees]. apply date_serial_agrees.
-  - apply andb_true_iff in H as [H H3]. apply andb_true_iff in H as [H1 H2].
-    apply negb_true_iff in H1, H3. subst. apply N.eqb_eq in H2. subst.
-    cbn [cell_agrees]. apply datetime_serial_agrees. apply Z.eqb_neq; auto.
+  - apply negb_true_iff in H. subst. cbn [cell_agrees]. apply date_serial_agrees.
 Qed.
 
 Fixpoint cat_all (p : pyval -> bool) (c : cat) : bool :=
@@ -879,9 +867,9 @@ Qed.
 Lemma agree_col_level sh col0 leafs nodes (h : pyval -> cval) :
   1 <= leafs -> spaced 0 nodes leafs ->
   (forall ic, In ic nodes ->
-     cell_agrees (Some (h (cat_lab (snd ic)))) (xl_cell (label_of (cat_lab (snd ic)))) = true) ->
+     cell_agrees (Some (h (cat_lab (snd ic)))) (xl_cell (date_only (label_of (cat_lab (snd ic))))) = true) ->
   (forall k, k < leafs ->
-     get sh (k + 1) col0 = match lookup k (level_entries nodes) with Some lab => xl_cell lab | None => Empty end) ->
+     get sh (k + 1) col0 = match lookup k (level_entries nodes) with Some lab => xl_cell (date_only lab) | None => Empty end) ->
   agree_col sh (col0 + 1) 2 (leafs + 1) leafs (map (fun ic => (fst ic, h (cat_lab (snd ic)))) nodes) = true.
 Proof.
   intros Hl Hsp Hag Hg. apply agree_col_intro.
@@ -948,7 +936,7 @@ Section CatAgree.
 
   Lemma agree_cat_nodes kind (h : pyval -> cval) :
     (forall nodes, In nodes (node_levels (cd_cats d)) -> forall ic, In ic nodes ->
-       cell_agrees (Some (h (cat_lab (snd ic)))) (xl_cell (label_of (cat_lab (snd ic)))) = true) ->
+       cell_agrees (Some (h (cat_lab (snd ic)))) (xl_cell (date_only (label_of (cat_lab (snd ic))))) = true) ->
     agree_cat sh (categories_rng depth (forest_leaf_count (cd_cats d)))
       (mk_cat_cache kind (forest_leaf_count (cd_cats d))
          (map (fun nodes => map (fun ic => (fst ic, h (cat_lab (snd ic)))) nodes) (node_levels (cd_cats d)))) = true.
@@ -1040,7 +1028,7 @@ Lemma cat_sers_inv b cs depth : forall ss idx es,
     cs_name_ref e = render_cell (column_letters (series_col_number depth (idx + N.of_nat j))) 1 /\
     cs_name e = name_of (s_name s) /\
     cs_cat_rng e = categories_rng depth (forest_leaf_count cs) /\
-    cs_cat_ref e = render_range [65] 2 [65 + depth - 1] (forest_leaf_count cs + 1) /\
+    cs_cat_ref e = render_range [65] 2 (column_letters depth) (forest_leaf_count cs + 1) /\
     cs_cat e = cc /\
     cs_val_rng e = values_rng depth (idx + N.of_nat j) (len_N (s_vals s)) /\
     cs_val_ref e = render_range (column_letters (series_col_number depth (idx + N.of_nat j))) 2
@@ -1053,6 +1041,8 @@ Proof.
     destruct (column_reference (series_col_number depth idx)) as [col|] eqn:Ec; cbn [bind] in H; [|discriminate].
     apply column_reference_ok in Ec as [Hcol ->].
     destruct (N.eqb_spec depth 0) as [|Hd0]; cbn [bind] in H; [discriminate|].
+    destruct (column_reference depth) as [dcol|] eqn:Edc; cbn [bind] in H; [|discriminate].
+    apply column_reference_ok in Edc as [_ ->].
     destruct (cat_cache_of b cs) as [cc|] eqn:Ecc; cbn [bind] in H; [|discriminate].
     destruct (cat_sers b cs depth (idx + 1) ss) as [tl|] eqn:Et; cbn [bind] in H; [|discriminate].
     inversion H; subst es. clear H. destruct He as [<-|He].
@@ -1067,41 +1057,35 @@ Qed.
 (** ** C08_cat_chart *)
 
 Lemma categories_text_render depth leafs :
-  1 <= depth <= 26 ->
-  render_range [65] 2 [65 + depth - 1] (leafs + 1) = render_rng (categories_rng depth leafs).
+  render_range [65] 2 (column_letters depth) (leafs + 1) = render_rng (categories_rng depth leafs).
 Proof.
-  intros H. unfold render_rng, categories_rng. cbn [r_c1 r_c2 r_r1 r_r2].
-  rewrite (column_letters_single depth) by lia. rewrite (column_letters_single 1) by lia. reflexivity.
+  unfold render_rng, categories_rng. cbn [r_c1 r_c2 r_r1 r_r2].
+  rewrite (column_letters_single 1) by lia. reflexivity.
 Qed.
-
-Definition cat_depth_ok (cs : list cat) : bool :=
-  match forest_depth cs with Ok depth => depth <=? 26 | Err _ => false end.
 
 Definition series_ok (s : series) : bool :=
   str_safe (name_of (s_name s)) && (1 <=? len_N (s_vals s)) && (len_N (s_vals s) <? xl_rowmax).
 
 Definition cat_domain (b : bool) (d : catdata) : bool :=
   cat_labels_ok b (cd_cats d) && forallb series_ok (cd_series d)
-  && (forest_leaf_count (cd_cats d) <? xl_rowmax) && cat_depth_ok (cd_cats d).
+  && (forest_leaf_count (cd_cats d) <? xl_rowmax).
 
 Lemma cat_chart_agrees b d es sh :
   cat_domain b d = true -> cat_xml b d = Ok es -> cat_sheet d = Ok sh ->
   forallb (agree_cat_ser sh) es = true.
 Proof.
   intros Hdom Hxml Hsh. unfold cat_domain in Hdom.
-  apply andb_true_iff in Hdom as [Hdom Hd26].
   apply andb_true_iff in Hdom as [Hdom Hrows]. apply andb_true_iff in Hdom as [Hlab Hser].
   unfold cat_xml in Hxml. destruct (forest_depth (cd_cats d)) as [depth|] eqn:Hdepth; cbn [bind] in Hxml; [|discriminate].
   apply forallb_forall. intros e He.
   destruct (cat_sers_inv _ _ _ _ _ _ Hxml e He) as
     [j [s [cc [Hj [Hcc [Hd0 [Hcol [E1 [T1 [E2 [E3 [T2 [E4 [E5 [T3 E6]]]]]]]]]]]]]]].
-  unfold cat_depth_ok in Hd26. rewrite Hdepth in Hd26.
   rewrite forallb_forall in Hser. specialize (Hser s (nth_error_In _ _ Hj)).
   unfold series_ok in Hser. apply andb_true_iff in Hser as [Hser Hlen2]. apply andb_true_iff in Hser as [Hname Hlen1].
   unfold series_col_number in Hcol.
   assert (Hrow : forest_leaf_count (cd_cats d) < xl_rowmax) by lia.
   unfold agree_cat_ser. rewrite E1, E2, E3, E4, E5, E6, T1, T2, T3.
-  rewrite (categories_text_render depth) by lia.
+  rewrite (categories_text_render depth).
   unfold render_cell_rng, render_rng.
   unfold series_name_rng, values_rng, series_col_number. cbn [r_c1 r_c2 r_r1 r_r2].
   rewrite !str_eqb_refl, !andb_true_r.
@@ -1413,7 +1397,7 @@ Lemma cat_levels_by_ref d depth sh i l k :
   (forall e, In e l -> fst e < forest_leaf_count (cd_cats d)) /\
   NoDup (map fst l) /\
   get sh (r_r1 cr - 1 + k) (r_c2 cr - N.of_nat i - 1) =
-    match lookup k l with Some lab => xl_cell lab | None => Empty end.
+    match lookup k l with Some lab => xl_cell (date_only lab) | None => Empty end.
 Proof.
   intros Hdepth Hsh Hd1 Hdm Hi cr Hk Hrows. unfold cr, categories_rng. cbn [r_c1 r_c2 r_r1 r_r2].
   assert (Hlen : len_N (levels (cd_cats d)) = depth) by (apply levels_length; auto).
@@ -1464,12 +1448,27 @@ Proof.
     + destruct G1 as [_ G1]. specialize (G1 (or_intror Hgt)). inversion G1; subst. split; split; auto.
 Qed.
 
-Lemma categories_ref_text_render depth leafs :
-  1 <= depth <= 26 -> categories_ref_text depth leafs = Ok (render_rng (categories_rng depth leafs)).
+Lemma categories_ref_text_render depth leafs t :
+  categories_ref_text depth leafs = Ok t -> t = render_rng (categories_rng depth leafs).
 Proof.
-  intros H. unfold categories_ref_text. replace (depth =? 0) with false by lia.
-  unfold render_rng, categories_rng. cbn [r_c1 r_c2 r_r1 r_r2].
-  rewrite (column_letters_single depth) by lia. rewrite (column_letters_single 1) by lia. reflexivity.
+  unfold categories_ref_text. destruct (depth =? 0); [discriminate|].
+  destruct (column_reference depth) as [col|] eqn:E; cbn [bind]; [|discriminate].
+  apply column_reference_ok in E as [_ ->]. intros H; inversion H; subst.
+  apply categories_text_render.
+Qed.
+
+Lemma categories_ref_text_guard depth leafs :
+  (categories_ref_text depth leafs = Err ValueErr <-> (depth = 0 \/ 16384 < depth)) /\
+  (1 <= depth <= 16384 -> categories_ref_text depth leafs = Ok (render_rng (categories_rng depth leafs))).
+Proof.
+  unfold categories_ref_text. destruct (N.eqb_spec depth 0) as [->|Hn].
+  - split; [split; auto|lia].
+  - destruct (column_reference_guard depth) as [[G1 G1'] G2].
+    destruct (N.le_gt_cases depth 16384) as [Hle|Hgt].
+    + rewrite G2 by lia. cbn [bind]. split.
+      * split; [discriminate|lia].
+      * intros _. f_equal; try apply categories_text_render.
+    + rewrite G1' by lia. cbn [bind]. split; [split; auto|lia].
 Qed.
 
 (** the reversed range of an empty series *)
@@ -1590,6 +1589,12 @@ Proof.
     congruence.
 Qed.
 
+Definition w_long : str := repeat 120 (N.to_nat 32768).
+Lemma w_long_hyps :
+  formula_like w_long = false /\ array_formula_like w_long = false /\ url_like w_long = false /\
+  xl_strmax < len_N w_long.
+Proof. vm_compute. repeat split. Qed.
+
 Definition wA : str := [97].
 Definition wB : str := [98].
 Definition w_one : val := Some (1%Z, 1%positive).
@@ -1621,16 +1626,19 @@ Definition ex_depth26 := mk_catdata [chain 25] [mk_series (Some wB) [w_one]].
 
 Lemma witnesses_refuted :
   cat_verdict false w_formula = Some false /\ cat_verdict false w_empty = Some false /\
-  cat_verdict false w_time = Some false /\ cat_verdict false w_1900 = Some false /\
   cat_verdict true w_date = Some false /\ cat_verdict false w_date = Some true /\
-  cat_verdict false w_none = Some false /\
-  cat_verdict false w_depth27 = Some false /\ cat_verdict false ex_depth26 = Some true /\
   xy_verdict false w_xy_empty = false /\ xy_verdict true w_xy_empty = false.
 Proof. vm_compute. repeat split. Qed.
 
-Lemma depth27_ref_not_a_column :
-  categories_ref_text 27 1 = Ok (render_range [65] 2 [91] 2) /\ ~ (65 <= 91 <= 90).
-Proof. split; [vm_compute; reflexivity|lia]. Qed.
+(** regression: the former witnesses (datetime with a time of day, datetime(1900,1,1),
+    None among numeric labels, 27 category levels) now agree and lie in the domain *)
+Lemma former_witnesses_agree :
+  cat_domain false w_time = true /\ cat_verdict false w_time = Some true /\
+  cat_domain false w_1900 = true /\ cat_verdict false w_1900 = Some true /\
+  cat_domain false w_none = true /\ cat_verdict false w_none = Some true /\
+  cat_domain false w_depth27 = true /\ cat_verdict false w_depth27 = Some true /\
+  categories_ref_text 27 1 = Ok [83; 104; 101; 101; 116; 49; 33; 36; 65; 36; 50; 58; 36; 65; 65; 36; 50].
+Proof. vm_compute. repeat split. Qed.
 
 Lemma empty_series_ref_text :
   values_ref_text 1 0 0 = Ok [83; 104; 101; 101; 116; 49; 33; 36; 66; 36; 50; 58; 36; 66; 36; 49].
